@@ -610,9 +610,18 @@ func (g *gen) batch() []*t_aio.Transaction {
 	if g.r.Intn(4) == 0 {
 		n = 1
 	}
+	big := g.r.Intn(12) == 0
+	if big {
+		// a batch as large as a loaded server collects (the store's batch size defaults to 1000):
+		// all-or-nothing must not depend on the number of submissions
+		n = 40 + g.r.Intn(180)
+	}
 	txs := make([]*t_aio.Transaction, n)
 	for i := range txs {
 		m := 1 + g.r.Intn(5)
+		if big {
+			m = 1 + g.r.Intn(2)
+		}
 		tx := &t_aio.Transaction{}
 		for j := 0; j < m; j++ {
 			tx.Commands = append(tx.Commands, g.command())
@@ -696,8 +705,13 @@ func (engineS) Generate(prop string, seed int64, runNo int) (*k.RunResult, error
 		txs := g.batch()
 		raw, _ := json.Marshal(txs)
 		st := k.Step{Op: "batch", Txs: raw}
-		if rng.Intn(6) == 0 {
-			st.Sql = &faultdb.Fault{Where: pick(rng, []string{"stmt", "stmt", "stmt", "commit", "begin"}), At: rng.Intn(10), Err: pick(rng, []string{"full", "ioerr", "busy"})}
+		if rng.Intn(6) == 0 || (len(txs) > 30 && rng.Intn(2) == 0) {
+			at := rng.Intn(10)
+			if len(txs) > 30 {
+				// anywhere in the batch, the far end included
+				at = rng.Intn(3 * len(txs))
+			}
+			st.Sql = &faultdb.Fault{Where: pick(rng, []string{"stmt", "stmt", "stmt", "commit", "begin"}), At: at, Err: pick(rng, []string{"full", "ioerr", "busy"})}
 		}
 		if rng.Intn(3) == 0 {
 			at := 1 + rng.Intn(8)
